@@ -99,7 +99,11 @@ class StoreExec:
                 else:
                     local[pname] = UNK
             outs = []
-            ctx = {"func": fi, "prefix": prefix, "self": fi.self_name()}
+            ctx = {"func": fi, "prefix": prefix, "self": fi.self_name(), "aliases": {}}
+            for pname, v in list(local.items()):
+                if isinstance(v, tuple) and len(v) == 2 and v[0] == "ALIAS":
+                    ctx["aliases"][pname] = v[1]
+                    local[pname] = UNK
             for o in self.exec_block(fi.node.body, dict(store), local, ctx):
                 if o.kind == "next":
                     outs.append(Outcome(o.store, "return", None))
@@ -185,6 +189,25 @@ class StoreExec:
             if ng:
                 ctx2["nograd"] = True
             return [(o, local) for o in self.exec_block(st.body, store, local, ctx2)]
+        if isinstance(st, ast.For) and isinstance(st.iter, (ast.Tuple, ast.List)) and 0 < len(st.iter.elts) <= 8 and not st.orelse:
+            # a loop over a literal sequence: the sequence of its bodies (the loop variables may
+            # alias tracked state: `for running, batch in ((self.running_mean, mean), ...)`)
+            live = [(Outcome(store), dict(local))]
+            finished = []
+            for elt in st.iter.elts:
+                nxt = []
+                for o, loc in live:
+                    loc2 = dict(loc)
+                    s2 = dict(o.store)
+                    ctx["aliases"] = dict(ctx.get("aliases") or {})
+                    self.assign(st.target, UNK, elt, s2, loc2, ctx, st)
+                    for o2 in self.exec_block(st.body, s2, loc2, ctx):
+                        if o2.kind == "next":
+                            nxt.append((o2, loc2))
+                        else:
+                            finished.append((o2, loc2))
+                live = nxt
+            return live + finished
         if isinstance(st, (ast.For, ast.While)):
             # loops in life-cycle methods: execute the body once (state effects are idempotent
             # for the stores the repository performs); anything else is unsupported
@@ -204,10 +227,33 @@ class StoreExec:
         if ch is None:
             return None
         sn = ctx["self"]
+        # a local name (or a callee's parameter) bound to tracked state: `cache = self.cache`,
+        # `def _update(self, running_stat, ...)` called with self.running_mean
+        aliases = ctx.get("aliases") or {}
+        root = ch.split(".", 1)[0]
+        if root in aliases and root != sn:
+            path = aliases[root] + ("." + ch.split(".", 1)[1] if "." in ch else "")
+            return path if path in self.tracked else None
         if sn is None or not ch.startswith(sn + "."):
             return None
         path = ctx["prefix"] + ch[len(sn) + 1 :]
         return path if path in self.tracked else None
+
+    def alias_target(self, node, ctx):
+        """the tracked path, or the root object holding tracked paths, an expression refers to"""
+        p = self.tracked_path(node, ctx)
+        if p is not None:
+            return p
+        ch = attr_chain(node)
+        sn = ctx["self"]
+        if ch and sn and ch.startswith(sn + ".") and not ctx["prefix"]:
+            sub = ch[len(sn) + 1 :]
+            if sub in self.roots:
+                return sub
+        aliases = ctx.get("aliases") or {}
+        if isinstance(node, ast.Name) and node.id in aliases:
+            return aliases[node.id]
+        return None
 
     def const_of(self, node, local, store, ctx):
         if node is None:
@@ -222,6 +268,9 @@ class StoreExec:
         if isinstance(node, ast.UnaryOp) and isinstance(node.op, ast.Not):
             v = self.const_of(node.operand, local, store, ctx)
             return UNK if v is UNK else (not v)
+        if isinstance(node, ast.BoolOp) or (isinstance(node, ast.Compare) and len(node.ops) == 1 and isinstance(node.ops[0], (ast.Is, ast.IsNot))):
+            # a named condition: `need_weight = cache.weight is None`
+            return self.truth(node, store, local, ctx)
         if isinstance(node, ast.Call):
             # torch.tensor(True, dtype=...) / torch.as_tensor(False)
             f = norm_text(node.func)
@@ -305,7 +354,8 @@ class StoreExec:
             sn = ctx["self"]
             if isinstance(base, ast.Name) and base.id == sn and not ctx["prefix"]:
                 fi = self.cls.lookup_method(node.func.attr)
-                if fi is not None and self.is_relevant(fi):
+                passes_state = any(self.alias_target(a, ctx) is not None for a in list(node.args) + [k.value for k in node.keywords])
+                if fi is not None and (self.is_relevant(fi) or passes_state):
                     out.append((node, "self", fi))
             elif isinstance(base, ast.Call) and isinstance(base.func, ast.Name) and base.func.id == "super":
                 out.append((node, "super", node.func.attr))
@@ -337,10 +387,12 @@ class StoreExec:
         params = [p for p, _ in fi.params()]
         for i, a in enumerate(call.args):
             if i < len(params):
-                args[params[i]] = self.const_of(a, local, store, ctx)
+                t = self.alias_target(a, ctx)
+                args[params[i]] = ("ALIAS", t) if t is not None else self.const_of(a, local, store, ctx)
         for kw in call.keywords:
             if kw.arg is not None:
-                args[kw.arg] = self.const_of(kw.value, local, store, ctx)
+                t = self.alias_target(kw.value, ctx)
+                args[kw.arg] = ("ALIAS", t) if t is not None else self.const_of(kw.value, local, store, ctx)
         return args
 
     def _do_call(self, call, kind, info, store, local, ctx):
@@ -394,6 +446,11 @@ class StoreExec:
             return
         if isinstance(target, ast.Name):
             local[target.id] = val
+            t = self.alias_target(value_node, ctx) if value_node is not None and isinstance(value_node, (ast.Attribute, ast.Name)) else None
+            if t is not None:
+                ctx.setdefault("aliases", {})[target.id] = t
+            elif target.id in (ctx.get("aliases") or {}):
+                del ctx["aliases"][target.id]
             return
         p = self.tracked_path(target, ctx)
         if p is not None:
